@@ -13,7 +13,7 @@ namespace OdlModel.ElemOps
 open OdlModel.Lincomb
 
 section
-variable {K : Type} [Add K] [Mul K] [Neg K] [Div K] [OfNat K 0] [OfNat K 1]
+variable {K : Type} [Add K] [Mul K] [Neg K] [Div K] [OfNat K 0] [OfNat K 1] [DecidableEq K]
 
 /-- Type of a space's `_lincomb(a, x1, b, x2, out)`. -/
 abbrev LC (K : Type) := Args → K → K → Mem K → Option (Mem K)
@@ -47,7 +47,12 @@ inductive Op
 /-- Execute one operator call. `x` = self, `y` = other element (if any), `c` = other scalar
 (if any), `t` = the id of the buffer `element()` / `one()` / `copy()` will allocate (fresh:
 different from `x` and `y`; its previous content models uninitialised memory).
-Returns the new memory and the id of the returned object. -/
+Returns the new memory and the id of the returned object; `none` = the call raises
+(`x / 0` with a scalar zero: `ZeroDivisionError` from `1.0 / other`).
+The model starts at the branch of the Python method that the operand kind selects
+(`E`: `other in self.space`, `S`: `other in self.space.field`); the preceding
+`__array_priority__` / `field is None` tests and the coercion of array-likes through
+`space.element(other)` are not part of it. -/
 def Op.exec (lc : LC K) (op : Op) (x y t : Nat) (c : K) (m : Mem K) : Option (Mem K × Nat) :=
   match op with
   | .addE => (lc ⟨x, y, t⟩ 1 1 m).map (·, t)                 -- lincomb(1, self, 1, other, out=tmp)
@@ -63,7 +68,9 @@ def Op.exec (lc : LC K) (op : Op) (x y t : Nat) (c : K) (m : Mem K) : Option (Me
       | some m1 => (lc ⟨t, x, t⟩ 1 (-1) m1).map (·, t)
       | none => none
   | .mulS => (lincomb1 lc c x t m).map (·, t)                -- lincomb(other, self, out=tmp)
-  | .divS => (lincomb1 lc (1 / c) x t m).map (·, t)          -- lincomb(1.0 / other, self, out=tmp)
+  | .divS =>                                                 -- lincomb(1.0 / other, self, out=tmp)
+      if c = 0 then none                                     -- `1.0 / other` raises ZeroDivisionError
+      else (lincomb1 lc (1 / c) x t m).map (·, t)
   | .rdivS =>                                                -- tmp = one(); lincomb(other, tmp, out=tmp);
       match lincomb1 lc c t t (one t m) with                 -- divide(tmp, self, out=tmp)
       | some m1 => some (divide t x t m1, t)
@@ -75,7 +82,7 @@ def Op.exec (lc : LC K) (op : Op) (x y t : Nat) (c : K) (m : Mem K) : Option (Me
   | .iaddS => (lc ⟨x, t, x⟩ 1 c (one t m)).map (·, x)        -- lincomb(1, self, other, one(), out=self)
   | .isubS => (lc ⟨x, t, x⟩ 1 (-c) (one t m)).map (·, x)
   | .imulS => (lincomb1 lc c x x m).map (·, x)
-  | .idivS => (lincomb1 lc (1 / c) x x m).map (·, x)
+  | .idivS => if c = 0 then none else (lincomb1 lc (1 / c) x x m).map (·, x)
   | .neg => (lincomb1 lc (-1) x t m).map (·, t)              -- (-1) * self
   | .pos => (lincomb1 lc 1 x t m).map (·, t)                 -- self.copy()  (= lincomb(1, self) into a new element)
   | .setZero => (lc ⟨x, x, x⟩ 0 0 m).map (·, x)              -- lincomb(0, self, 0, self, out=self)
@@ -128,6 +135,16 @@ def ipow (lc : LC K) (x t : Nat) (p : Nat) (m : Mem K) : Option (Mem K) :=
 termination_by p
 decreasing_by omega
 
+/-- `self **= p` for an integer exponent: `p < 0`: `self **= -p;
+self.space.divide(self.space.one(), self, out=self)`; otherwise the natural-exponent
+recursion. (The check `int(p) != p → ValueError` precedes it and is not modelled.) -/
+def ipowInt (lc : LC K) (x t : Nat) (p : Int) (m : Mem K) : Option (Mem K) :=
+  if p < 0 then
+    match ipow lc x t (-p).toNat m with
+    | some m1 => some (divide t x x (one t m1))
+    | none => none
+  else ipow lc x t p.toNat m
+
 /-- `ProductSpace._lincomb`: component by component, in order
 (`for space, xp, yp, outp in zip(...): space._lincomb(a, xp, b, yp, outp)`).
 Elements are given by the buffer ids of their leaf parts (nested product spaces recurse,
@@ -170,6 +187,46 @@ def lincombFront (hasField outGiven outIn aIn x1In bGiven x2Given bIn x2In : Boo
 def FrontOutcome.isError : FrontOutcome → Bool
   | .callOne | .callTwo => false
   | _ => true
+
+/-! ### The same checks as a program, for the translator (`Gen/LincombFront.lean`) -/
+
+/-- What the argument checks look at. -/
+structure FrontEnv where
+  hasField : Bool
+  outGiven : Bool
+  outIn : Bool
+  aIn : Bool
+  x1In : Bool
+  bGiven : Bool
+  x2Given : Bool
+  bIn : Bool
+  x2In : Bool
+
+inductive FCond
+  | hasField | outGiven | outIn | aIn | x1In | bGiven | x2Given | bIn | x2In
+  | not (c : FCond) | and (c d : FCond) | or (c d : FCond)
+
+def FCond.eval (e : FrontEnv) : FCond → Bool
+  | .hasField => e.hasField | .outGiven => e.outGiven | .outIn => e.outIn | .aIn => e.aIn
+  | .x1In => e.x1In | .bGiven => e.bGiven | .x2Given => e.x2Given | .bIn => e.bIn
+  | .x2In => e.x2In
+  | .not c => !(c.eval e) | .and c d => c.eval e && d.eval e | .or c d => c.eval e || d.eval e
+
+inductive FStmt
+  | skip | seq (s t : FStmt) | ite (c : FCond) (t e : FStmt)
+  | raise (o : FrontOutcome) | allocOut | callOne | callTwo | ret
+
+/-- First decisive event of the program: a raise or one of the two `_lincomb` calls
+(`none`: the program ends without either). -/
+def FStmt.eval (e : FrontEnv) : FStmt → Option FrontOutcome
+  | .skip => none
+  | .seq s t => match s.eval e with | some o => some o | none => t.eval e
+  | .ite c t f => if c.eval e then t.eval e else f.eval e
+  | .raise o => some o
+  | .allocOut => none
+  | .callOne => some .callOne
+  | .callTwo => some .callTwo
+  | .ret => none
 
 end
 end OdlModel.ElemOps
